@@ -201,8 +201,8 @@ def hasExponentNumber (d : String) : Bool :=
   go d.toList
 
 mutual
-/-- a `range(from, to, <boolean literal>)` call that is NOT the iterator of an iteration: the printer writes the
-sugar `from..to`, which the grammar only reads in iterator position -/
+/-- a `range(from, to, <boolean literal>)` call that is NOT the iterator of an iteration: before 10f80da the printer
+wrote the sugar `from..to`, which the grammar only reads in iterator position (kept as regression detector) -/
 partial def rangeOutsideIterator : PExp → Bool
   | .call n as => isRangeSugar n as || as.any rangeOutsideIterator
   | .cvar _ as | .access _ as | .block _ as => as.any rangeOutsideIterator
@@ -216,7 +216,8 @@ partial def rangeInIterator : PExp → Bool
   | e => rangeOutsideIterator e
 end
 
-/-- a compound variable with a float index `x_{1.5}` is printed `x_1.5`, which the builder of compound variables refuses -/
+/-- (repaired in 7352fcb, kept as regression detector) a compound variable with a float index `x_{1.5}` was printed
+`x_1.5`, which the builder of compound variables refuses -/
 partial def floatIndex : PExp → Bool
   | .cvar _ as => as.any (fun | .num _ => true | e => floatIndex e)
   | .access _ as | .call _ as | .block _ as => as.any floatIndex
@@ -225,7 +226,8 @@ partial def floatIndex : PExp → Bool
   | .un _ e => floatIndex e
   | _ => false
 
-/-- a compound variable with a string index `x_{"a"}` is printed `x_a`, which is read as the index variable `a`
+/-- (repaired in 7352fcb, kept as regression detector) a compound variable with a string index `x_{"a"}` was printed
+`x_a`, which is read as the index variable `a`
 (a string index is only printed bare when it is a literal name fragment `_2`) -/
 partial def stringIndex : PExp → Bool
   | .cvar _ as => as.any (fun | .str s => !(s.startsWith "_") | e => stringIndex e)
@@ -235,7 +237,7 @@ partial def stringIndex : PExp → Bool
   | .un _ e => stringIndex e
   | _ => false
 
-/-- `Debug` of a mixed array: `[Integer(1), Boolean(true)]` -/
+/-- `Debug` of a mixed array: `[Integer(1), Boolean(true)]` (repaired in ceec4dc, kept as regression detector) -/
 def hasDebugArray (d : String) : Bool :=
   ["Integer(", "Boolean(", "Number(", "String(", "PositiveInteger("].any fun k => (d.splitOn k).length > 1
 
@@ -336,6 +338,32 @@ def classifyParse (text : String) (impl : Sexp) : Sexp :=
       else app "ok" [.atom "differs-unclassified"]
     | _, _ => app "ok" [.atom "not-compared"]
 
+/-- display texts of the `Primitive::Number` literals of a program -/
+def lits (b : PModel) : List String :=
+  ((slots b).foldl (fun acc x => let r := expLiterals x.2; (acc.1 ++ r.1, acc.2 ++ r.2)) (([], []) : List String × List String)).1
+
+/-- an integral decimal literal of large magnitude: it is printed as an INTEGER literal (`9223372036854774784.0` →
+`9223372036854774784`), so arithmetic on it becomes checked i64 arithmetic and can overflow where the decimal did not -/
+def largeIntegralFloat (t : String) : Bool :=
+  !t.toList.isEmpty && t.toList.all isDigit && decide (digitsToNat t.toList ≥ 2147483648)
+
+/-- every expression of a program, names included -/
+def allExps (b : PModel) : List PExp :=
+  (slots b).map (·.2)
+    ++ b.constraints.flatMap (fun c => match c.name with | some (.compound n idx) => [PExp.cvar n idx] | _ => [])
+    ++ b.domains.flatMap (fun d => d.vars.filterMap (fun | .compound n idx => some (PExp.cvar n idx) | _ => none))
+
+/-- the (repaired) printer defect a program would run into, if any: a deviation of such a program is attributed to
+the recurrence of that defect -/
+def knownPrinterDefect (b : PModel) : Option String :=
+  let lits := (slots b).foldl (fun acc x => let r := expLiterals x.2; (acc.1 ++ r.1, acc.2 ++ r.2)) (([], []) : List String × List String)
+  if (allExps b).any stringIndex then some "string-index-of-compound-variable-printed-bare"
+  else if (allExps b).any floatIndex then some "float-index-of-compound-variable-printed-bare"
+  else if (lits.2.find? hasDebugArray).isSome then some "mixed-array-printed-in-debug-form"
+  else if (slotsNoIter b).any rangeOutsideIterator || (iterSlots b).any rangeInIterator then
+    some "range-call-printed-as-sugar-outside-iterator"
+  else none
+
 /-- exact oracle: the PROPERTY evaluated on the implementation's own answer.
 `(check-format <premodel of s> <premodel of format(s) | reject | panic> <idempotent?> <models: same|differ|broke|repaired|na>)` -/
 def oracle : List Sexp → Sexp
@@ -344,9 +372,17 @@ def oracle : List Sexp → Sexp
     match PModel.dec before with
     | none => app "err" [.atom "decode"]
     | some b =>
+      -- a deviation of a program that runs into a known printer defect is attributed to that defect
+      let attributed (generic : Sexp) : Sexp :=
+        match knownPrinterDefect b with
+        | some k => app "violation" [.atom k]
+        | none => generic
       match after with
       | .atom "panic" => app "violation" [.atom "parser-panics-on-formatted-text"]
       | .atom "reject" =>
+        match knownPrinterDefect b with
+        | some k => app "violation" [.atom k]
+        | none =>
         if b.objKind == .solve then app "violation" [.atom "solve-objective-printed-with-operand"]
         else match (modelNames b).find? badEscapedName with
           | some n => app "violation" [.atom "escaped-simple-variable-with-underscore", .str n]
@@ -355,35 +391,25 @@ def oracle : List Sexp → Sexp
             match lits.1.find? integralBeyondI64, lits.2.find? hasExponentNumber with
             | some t, _ => app "violation" [.atom "integral-float-beyond-i64-printed-as-integer", .str t]
             | none, some d => app "violation" [.atom "array-number-printed-in-exponent-notation", .str d]
-            | none, none =>
-              match lits.2.find? hasDebugArray with
-              | some d => app "violation" [.atom "mixed-array-printed-in-debug-form", .str d]
-              | none =>
-                let exps := (slots b).map (·.2)
-                  ++ b.constraints.flatMap (fun c => match c.name with | some (.compound n idx) => [PExp.cvar n idx] | _ => [])
-                  ++ b.domains.flatMap (fun d => d.vars.filterMap (fun | .compound n idx => some (PExp.cvar n idx) | _ => none))
-                if (slotsNoIter b).any rangeOutsideIterator || (iterSlots b).any rangeInIterator then
-                  app "violation" [.atom "range-call-printed-as-sugar-outside-iterator"]
-                else if exps.any floatIndex then app "violation" [.atom "float-index-of-compound-variable-printed-bare"]
-                else app "violation" [.atom "formatted-text-does-not-parse"]
+            | none, none => app "violation" [.atom "formatted-text-does-not-parse"]
       | a =>
         match PModel.dec a with
         | none => app "err" [.atom "decode-after"]
         | some a =>
-          if !(sameSkeleton b a) then app "violation" [.atom "format-changes-program-skeleton"]
+          if !(sameSkeleton b a) then attributed (app "violation" [.atom "format-changes-program-skeleton"])
           else
             match ((slots b).zip (slots a)).find? (fun (x, y) => !(sameExp x.2 y.2)) with
             | some (x, y) =>
-              match offender x.2 with
+              attributed (match offender x.2 with
               | some (p, c, side) =>
                 app "violation" [.atom ("paren-dropped:" ++ opName p ++ "/" ++ opName c ++ "/" ++ side),
                   .atom (if valueChanges x.2 y.2 then "value-changes" else "tree-only"), .str x.1, .str (fmtExp x.2)]
-              | none =>
-                if stringIndex x.2 then app "violation" [.atom "string-index-of-compound-variable-printed-bare", .str x.1, .str (fmtExp x.2)]
-                else app "violation" [.atom "format-changes-expression", .str x.1, .str (fmtExp x.2), .str (fmtExp y.2)]
+              | none => app "violation" [.atom "format-changes-expression", .str x.1, .str (fmtExp x.2), .str (fmtExp y.2)])
             | none =>
-              if models == "differ" || models == "broke" then app "violation" [.atom ("compiled-model-" ++ models)]
-              else if idem != "true" then app "violation" [.atom "format-not-idempotent"]
+              if models == "broke" && (lits b).any largeIntegralFloat then
+                app "violation" [.atom "integral-float-printed-as-integer-overflows-integer-arithmetic"]
+              else if models == "differ" || models == "broke" then attributed (app "violation" [.atom ("compiled-model-" ++ models)])
+              else if idem != "true" then attributed (app "violation" [.atom "format-not-idempotent"])
               else app "ok" [.atom models]
   | _ => app "err" [.atom "bad-request"]
 end Rooc.Drv.C11
